@@ -14,7 +14,7 @@ from hypothesis import strategies as st
 from vf import prog, sem, members
 
 PROP = "C03"
-CASES = {"quick": 12000, "thorough": 400000}
+CASES = {"quick": 12000, "thorough": 1500000}
 RULE = ("class x member family (vf/members.py) x seed x dimension 1..4 x slack in {1 (extremal), 1.5} x history of 1-7 "
         "events.  Non-trivial = >= 2 samples and at least one generated inequality whose slack is below 5% of its scale "
         "(nearly active) or an equality / LMI over >= 2 samples; distinct by case JSON.")
